@@ -181,9 +181,13 @@ static jwt_value_error_t jwt_set_json(json_t *which, jwt_value_t *jval)
 		if (!jwt_obj_check(which, jval)) {
 			if (json_object_set_new(which, jval->name, json_val))
 				jval->error = JWT_VALUE_ERR_INVALID; // LCOV_EXCL_LINE
+
+			/* json_object_set_new() took over our reference, even
+			 * if it failed. */
+			json_val = NULL;
 		}
 
-		/* If things failed, it means we're responsible for this ref */
+		/* If the check failed, we're still responsible for this ref */
 		if (jval->error != JWT_VALUE_ERR_NONE)
 			json_decrefp(&json_val);
 	}
